@@ -48,6 +48,9 @@ type C06Scenario struct {
 	// files already cleaned, some cleaned halfway (coca rewrites a file once per removed line), some
 	// untouched; the value seeds which file is in which state
 	Crashed []uint64 `json:"crashed,omitempty"`
+	// Parent[d]: directory d lies below 1 ".jenkins/workspace" (hidden ancestor), 2 "build", 3 "my project (v2)",
+	// 4 a name in decomposed Unicode; 0 directly in the scratch directory
+	Parent []int `json:"parent,omitempty"`
 }
 
 type C06 struct{}
@@ -81,6 +84,11 @@ func (C06) Generate(t *tape.Tape, tier string) interface{} {
 		sc.Dirs = append(sc.Dirs, gen.GenImportProject(t, mf))
 		sc.Noise = append(sc.Noise, t.Bool(1, 4))
 		sc.Deep = append(sc.Deep, t.Bool(1, 6))
+		par := 0
+		if t.Bool(1, 3) {
+			par = 1 + t.Pick(5)
+		}
+		sc.Parent = append(sc.Parent, par)
 		if t.Bool(1, 6) {
 			sc.Crashed = append(sc.Crashed, t.Seed64()|1)
 		} else {
@@ -186,6 +194,10 @@ func (C06) Run(ctx *sim.RunCtx, data json.RawMessage) (*sim.Outcome, error) {
 	cleaned := make([]int, len(sc.Dirs))
 	for d, files := range found {
 		dirs[d] = filepath.Join(ctx.Dir, fmt.Sprintf("proj%d", d))
+		if d < len(sc.Parent) && sc.Parent[d] > 0 {
+			dirs[d] = filepath.Join(ctx.Dir, []string{"", filepath.Join(".jenkins", "workspace"), "build", "my project (v2)", "cafe\u0301-service", "Acme, Inc"}[sc.Parent[d]%6], fmt.Sprintf("proj%d", d))
+			out.Faults["project-below-unusual-directory"]++
+		}
 		state[d] = map[string]snapEnt{}
 		for _, f := range files {
 			p := filepath.Join(dirs[d], filepath.FromSlash(f.Path))
@@ -276,9 +288,13 @@ func (C06) Run(ctx *sim.RunCtx, data json.RawMessage) (*sim.Outcome, error) {
 			dirArg := dirs[op.Dir]
 			switch op.ArgForm {
 			case 1:
-				dirArg = fmt.Sprintf("proj%d", op.Dir)
+				if rel, err := filepath.Rel(ctx.Dir, dirs[op.Dir]); err == nil {
+					dirArg = rel
+				}
 			case 2:
-				dirArg = fmt.Sprintf("./proj%d", op.Dir)
+				if rel, err := filepath.Rel(ctx.Dir, dirs[op.Dir]); err == nil {
+					dirArg = "./" + rel
+				}
 			case 3:
 				dirArg = dirs[op.Dir] + "/"
 			case 4:
